@@ -383,7 +383,7 @@ static void do_put(int k, int copy, size_t opi)
 			const Walker &w = R.w[n];
 			if (!walking(w) || w.parked < 0 || w.parked == k) continue;
 			const char *pk = kstr(w.parked);
-			if (pk[0] == nk[0] && strncmp(nk, pk, strlen(pk)) != 0) { avoided(2); return; }
+			if (strlen(nk) < strlen(pk) && strncmp(pk, nk, strlen(nk)) == 0) { avoided(2); return; }
 		}
 	}
 	if (R.nserial + 1 >= MAXV) { skip(1); return; }
@@ -497,6 +497,9 @@ static void returned_key(Walker &w, const char *s, void *v, size_t opi, const ch
 		if (!(w.k_ever_all & bit(k)))
 			fail("iter-returned-key-never-present-during-iteration", R.site_next,
 			     "op %zu: %s returned key \"%s\" which was not in the map at any time since this iteration began", opi, how, printable(s).c_str());
+		// the iterator is positioned on that key all the same (the rules that steer around listed findings need to know)
+		w.parked = k;
+		w.parked_removed = !((R.present >> k) & 1);
 		return;
 	}
 	if (!(w.k_ever & bit(k))) {
